@@ -2,24 +2,31 @@
 # usage: tools_evalmut.sh <mutant dir> <check id> [more check ids]   (harness-side helper, not a registered command)
 # 1. confirm in a scratch worktree: patch applies, suite passes, demo fails with / passes without the change
 # 2. run the given checks (quick) against the patched worktree (VERIF_REPO), leaving /repo untouched
+# Output is printed and also written to <mutant dir>/eval.out.  Runs from wherever this script lives
+# (a `vp run` snapshot of /verif works; it then needs VERIF_DEPS=/verif/.deps).
 set -u
-M=$1; shift
+HERE=$(cd "$(dirname "$0")" && pwd)
+M=$(cd "$1" && pwd); shift
 WT=/tmp/wt/eval_$$
+OUT=$M/eval.out
+{
 git -C /repo worktree add -q --detach $WT HEAD || exit 9
 cd $WT
 cp $M/demo.py $WT/demo_mut.py
-/venv/bin/python demo_mut.py > /tmp/demo_without.$$ 2>&1; DWO=$?
+timeout 600 /venv/bin/python demo_mut.py > /tmp/demo_without.$$ 2>&1; DWO=$?
 if ! git apply $M/patch.diff; then echo "PATCH-DOES-NOT-APPLY"; cd /; git -C /repo worktree remove --force $WT; exit 8; fi
-T=$(/venv/bin/python -m pytest -q -p no:cacheprovider -x 2>&1 | tail -1)
+T=$(/venv/bin/python -m pytest -q -p no:cacheprovider -x --timeout=600 2>&1 | tail -1)
 echo "tests-with-change: $T"
-/venv/bin/python demo_mut.py > /tmp/demo_with.$$ 2>&1; DW=$?
+timeout 600 /venv/bin/python demo_mut.py > /tmp/demo_with.$$ 2>&1; DW=$?
 echo "demo-with-change: exit=$DW  demo-without-change: exit=$DWO"
 rm -f demo_mut.py /tmp/demo_with.$$ /tmp/demo_without.$$
-cd /verif
+cd $HERE
 for c in "$@"; do
   VERIF_REPO=$WT VERIF_DUMP=/tmp/evalmut_$$_$c.txt ./run check $c ${TIER:-quick} > /tmp/evalmut_$$_$c.log 2>&1
   echo "check $c exit=$? viol=$(grep -c '^VIOLATION' /tmp/evalmut_$$_$c.log) :: $(grep -v '^EXPLORER' /tmp/evalmut_$$_$c.log | tail -1 | cut -c1-160)"
   head -3 /tmp/evalmut_$$_$c.txt 2>/dev/null | cut -c1-260
   grep EXPLORER-ERROR /tmp/evalmut_$$_$c.log | head -2 | cut -c1-300
+  rm -f /tmp/evalmut_$$_$c.txt /tmp/evalmut_$$_$c.log
 done
 cd /; git -C /repo worktree remove --force $WT
+} 2>&1 | tee $OUT
